@@ -436,12 +436,13 @@ func (self *Lexer) makeTildeArrow() (Token, *errors.Error) {
 		)
 	}
 
+	endLocation := self.location
 	self.advance()
 
 	return newToken(
 		TildeArrow,
 		"->",
-		startLocation.Until(self.location, self.filename),
+		startLocation.Until(endLocation, self.filename),
 	), nil
 }
 
